@@ -256,7 +256,33 @@ def run_shard(desc, rec):
         for i in range(desc['count']):
             chain = []
             biased = rng.random() < 0.4
-            if biased:
+            if rng.random() < 0.2:
+                # leave math mode and come back, each time with or without naming the delimiter, with unrelated steps between
+                rec.hist('bias', 'leave-and-reenter-math')
+                delims = ['$', '$$', '\\(', '\\[', '€', '€€']
+                unrelated = ['latex_group_delimiters', 'enable_math', 'enable_comments', 'enable_macros', 'macro_alpha_chars']
+                unrelated = [k for k in unrelated if k in FIELD_CHOICES]
+
+                def some_unrelated():
+                    for _ in range(rng.randint(0, 2)):
+                        k = rng.choice(unrelated)
+                        chain.append({k: rng.choice(FIELD_CHOICES[k])})
+                for _ in range(rng.randint(1, 2)):
+                    kw = {'in_math_mode': True}
+                    if rng.random() < 0.6:
+                        kw['math_mode_delimiter'] = rng.choice(delims)
+                    chain.append(kw)
+                    some_unrelated()
+                    kw = {'in_math_mode': False}
+                    if rng.random() < 0.3:
+                        kw['math_mode_delimiter'] = None
+                    chain.append(kw)
+                    some_unrelated()
+                kw = {'in_math_mode': True}
+                if rng.random() < 0.4:
+                    kw['math_mode_delimiter'] = rng.choice(delims)
+                chain.append(kw)
+            elif biased:
                 rec.hist('bias', 'math-then-delims')
                 chain.append({'in_math_mode': True, 'math_mode_delimiter': rng.choice(['$', '$$', '\\(', '\\[', '€', '€€'])})
                 for _ in range(rng.randint(1, 3)):
